@@ -48,6 +48,9 @@ pub fn programs() -> Vec<P> {
     add("arith-final-int", "let x = 6\nlet y = 7\nx * y\n", vec![], vec![], "done", vec![], "", Some(Top::Int(42)), None, false);
     add("final-bool", "let x = 3\nx < 4\n", vec![], vec![], "done", vec![], "", Some(Top::Bool(true)), None, false);
     add("final-string", "let a = \"ab\"\na .. \"cd\"\n", vec![], vec![], "done", vec![], "", Some(Top::Str("abcd".into())), None, false);
+    add("final-value-followed-by-a-function-definition", "let a = 10\nlet b = a + 31\nb + 1\nfn later(x: int) -> int = x + 1\n", vec![], vec![], "done", vec![], "", Some(Top::Int(42)), None, false);
+    add("final-value-followed-by-type-and-extend", "let a = 10\nvh_emit_int(a)\na * 4 + 2\ntype Zz = {\n  v: int\n}\nextend Zz {\n  fn get(self) -> int = self.v\n}\n", vec![], vec![], "done", i(&[10]), "", Some(Top::Int(42)), None, false);
+    add("final-string-between-definitions", "fn early() -> string = \"e\"\nlet s = early() .. \"x\"\ns .. \"y\"\nfn later() -> int = 1\n", vec![], vec![], "done", vec![], "", Some(Top::Str("exy".into())), None, false);
     add("print-then-value", "println(\"hi\")\nprint(12)\n5 + 5\n", vec![], vec![], "done", vec![], "hi\n12", Some(Top::Int(10)), None, false);
     add("emit-loop", "var k = 0\nwhile k < 3 {\n  vh_emit_int(k)\n  k = k + 1\n}\n", vec![], vec![], "done", i(&[0, 1, 2]), "", None, None, false);
     add("readline-echo", "let l = readline()\nlet m = readline()\nprintln(m .. l)\n", vec![], vec!["one", "two"], "done", vec![], "twoone\n", None, None, false);
